@@ -32,6 +32,8 @@ MIN_OBS = {'calls_on_final_orders': 1000, 'injected_calls': 200, 'simulator_dupl
            'terminal_transitions': 2000, 'pruned_list_checks': 2000, 'sessions_with_liquidation': 10,
            'final_status_rechecks': 10000}
 
+from ..gen import TF_MIN
+
 M = {'on': False}
 
 
@@ -239,6 +241,8 @@ def hook_monitor(strategy, hook, ev):
         # the list itself (not only its ACTIVE members): whatever was final before this route's previous step has been through
         # at least one pruning of this symbol's list since
         from jesse.store import store
+        from jesse.routes import router
+        import math as _m
         now = store.app.time
         prev_t = M.setdefault('prev_before', {}).get(id(strategy))
         M['prev_before'][id(strategy)] = now
@@ -250,6 +254,25 @@ def hook_monitor(strategy, hook, ev):
                     _viol('final_order_still_in_the_active_list_after_a_full_step',
                           f'{strategy.symbol}: {o.type} {o.side} {o.price} has been {rec["final"]} since {rec["final_t"]} but is still '
                           f'in the list of active orders at {now} (previous step of this route at {prev_t})', o)
+                    break
+        # every route's list is pruned after every simulator step (a minute; a chunk = gcd of the route timeframes in the fast
+        # simulator), whether or not that route's strategy ran: what was final before the END of the previous step is gone
+        step = 1
+        if M.get('fast'):
+            step = 0
+            for r_ in router.all_formatted_routes:
+                step = _m.gcd(step, TF_MIN.get(r_['timeframe'], 1))
+        horizon = now - 2 * step * 60000
+        for r_ in router.routes:
+            if r_.symbol == strategy.symbol:
+                continue
+            M['cnt']['raw_active_list_checks_other_routes'] = M['cnt'].get('raw_active_list_checks_other_routes', 0) + 1
+            for o in store.orders.get_active_orders(r_.exchange, r_.symbol):
+                rec = M['rec'].get(id(o))
+                if rec and rec.get('final') is not None and rec.get('final_t') is not None and rec['final_t'] <= horizon:
+                    _viol('final_order_still_in_the_active_list_of_an_idle_route',
+                          f'{r_.symbol}: {o.type} {o.side} {o.price} has been {rec["final"]} since {rec["final_t"]} but is still in the '
+                          f'list of active orders at {now} (seen from the route of {strategy.symbol}, step {step} min)', o)
                     break
     if hook in ('before', 'after', 'terminate'):
         quiescent_checks(full=(hook == 'terminate' or strategy.index % 50 == 49))
@@ -301,6 +324,7 @@ def _session(job):
             r['script']['cancel_policy'] = 'rnd'
     begin()
     M['session'] = True
+    M['fast'] = bool(spec.get('fast'))
     M['rng'] = random.Random(job['seed'] + 1)
     if hook_monitor not in scripted.HOOK_MONITORS:
         scripted.HOOK_MONITORS.append(hook_monitor)
